@@ -1688,6 +1688,8 @@ impl Bundle {
                     // that they will, we can take the other bundle's value sum.
                     self.value_sum = value_sum;
                 }
+                // Both value sums cover the same actions, so they must agree.
+                (_, _, Ordering::Equal) if self.value_sum != value_sum => return None,
                 // Do nothing otherwise.
                 (_, _, Ordering::Equal) | (_, true, Ordering::Greater) => (),
             },
